@@ -13,7 +13,7 @@
 From Coq Require Import List NArith ZArith Bool Permutation.
 From Common Require Import Outcome.
 From BlockTree Require Import Model Spec ProofsTree ProofsPath ProofsSpec ProofsSim ProofsQuery
-  ProofsBest ProofsHist ProofsPre ProofsNum ProofsLca ProofsMore ProofsShape ProofsAtNum.
+  ProofsBest ProofsHist ProofsPre ProofsNum ProofsLca ProofsMore ProofsShape ProofsAtNum ProofsWrap.
 Import ListNotations.
 Local Open Scope N_scope.
 
@@ -193,3 +193,29 @@ Theorem C15_range_prefix_refuted :
                 /\ check_range_in_memory (abs t) p q (range_in_memory_prefix t p q) = false.
 Proof. exact range_prefix_refuted. Qed.
 Print Assumptions C15_range_prefix_refuted.
+
+(* Block numbers are Go uint.  The theorems above are about a model with unbounded numbers; with
+   the 64-bit wrap-around of `parent.number + 1` made explicit (add_block64 / run64 in Model.v)
+   the two models are EQUAL, tree and results, on every history whose numbers cannot reach 2^64:
+   root number + number of operations < 2^64.  Every statement of this file therefore holds of
+   the wrapping model under that explicit bound. *)
+Theorem C15_uint64_block_numbers : forall h x a ops,
+  x + N.of_nat (length ops) < two64 ->
+  run64 (new_tree h x a) ops = run (new_tree h x a) ops.
+Proof. exact run64_is_run. Qed.
+Print Assumptions C15_uint64_block_numbers.
+
+(* the bound is satisfiable (every history anyone can run) and it is needed: on top of a block
+   numbered 2^64 - 1 the wrapping AddBlock accepts a block numbered 0 that the unbounded model
+   refuses *)
+Example C15_uint64_bound_satisfiable :
+  let ops := [w_child 1; w_child 2; OFin 2] in
+  0 + N.of_nat (length ops) < two64 /\ (two64 - 10) + N.of_nat (length ops) < two64.
+Proof. vm_compute. split; reflexivity. Qed.
+
+Theorem C15_uint64_bound_needed :
+  let t := new_tree 1 (two64 - 1) 0%Z in
+  let hd := mkHeader 2 1 0 DNone in
+  (exists t', add_block64 t hd 0%Z = Ok t') /\ add_block t hd 0%Z = Err e_unexpected_number.
+Proof. exact wrap_witness. Qed.
+Print Assumptions C15_uint64_bound_needed.
